@@ -18,8 +18,13 @@ if [ "${SKIP_BASELINE:-0}" != 1 ]; then
     echo "SELFTEST $ID $(basename $PATCH): baseline tests FAIL with the patch (not a valid mutant)"; grep -E '^(--- FAIL|FAIL|panic:)' "$SCR/test.log" | head; exit 4
   fi
 fi
-VERIF_REPO="$SCR/repo" VERIF_OUT="$SCR/out" /verif/check.sh "$ID" "$TIER" > "$SCR/check.log" 2>&1
-rc=$?
+# run the check in its own process group under a watchdog, so that a runaway
+# mutant run can be killed together with all its worker processes
+VERIF_REPO="$SCR/repo" VERIF_OUT="$SCR/out" setsid /verif/check.sh "$ID" "$TIER" > "$SCR/check.log" 2>&1 &
+cpid=$!
+( sleep "${SELFTEST_TIMEOUT:-2400}"; kill -- -$cpid 2>/dev/null ) & wpid=$!
+wait $cpid; rc=$?
+kill $wpid 2>/dev/null; pkill -P $wpid sleep 2>/dev/null
 if [ $rc -eq 1 ] && grep -q "^VIOLATION property=$ID" "$SCR/check.log"; then
   echo "SELFTEST $ID $(basename $PATCH): DETECTED ($(grep -c '^VIOLATION' "$SCR/check.log") classes) $(grep -m1 -A1 '^VIOLATION' "$SCR/check.log" | tail -1)"
   exit 0
